@@ -83,8 +83,14 @@ Proof.
 Qed.
 
 Theorem numeric_cells_compare_as_numbers bl s l o i j :
+  cell l i <> None -> cell l j <> None ->
   beval clean bl s l (BCmp o (NHdr i) (NHdr j)) = cmp_num clean o (fst (neval bl s l (NHdr i))) (fst (neval bl s l (NHdr j))).
-Proof. reflexivity. Qed.
+Proof. intros Hi Hj. cbn [beval q_strcmp clean andb nvalue]. destruct (cell l i); [|contradiction]. destruct (cell l j); [|contradiction]. reflexivity. Qed.
+
+(** a cell the record does not have is neither above nor below a value *)
+Theorem missing_cell_compares_false bl s l o i e : cell l i = None -> is_vnone (nvalue bl s l e) = false ->
+  beval clean bl s l (BCmp o (NHdr i) e) = false /\ beval clean bl s l (BCmp o e (NHdr i)) = false.
+Proof. intros Hi He. cbn [beval q_strcmp clean andb nvalue]. rewrite Hi, He. split; reflexivity. Qed.
 
 (** D1, D2, D4 witnesses *)
 Theorem lt_is_le_refuted : cmp_num (mkQ true false false) Lt 10 10 = true /\ cmp_num clean Lt 10 10 = false.
